@@ -355,8 +355,33 @@ func (ic *inferContext) inferRelTypesFromClause() (ast.BaseTerm, error) {
 		}
 		levels[len(clause.Premises)] = nextStates
 	}
+	// A do-transform reduces all solutions of a group, whichever alternative
+	// they come from: apart from the group-by keys, which are equal within a
+	// group, a variable has the union of the types it has in the alternatives.
+	finalStates := levels[len(clause.Premises)]
+	if clause.Transform != nil && !clause.Transform.IsLetTransform() && len(finalStates) > 1 && len(clause.Transform.Statements) > 0 {
+		keys := make(map[ast.Variable]bool)
+		ast.AddVars(clause.Transform.Statements[0].Fn, keys)
+		merged := make(map[ast.Variable][]ast.BaseTerm)
+		for _, state := range finalStates {
+			for v, tpe := range state.asMap() {
+				merged[v] = append(merged[v], tpe)
+			}
+		}
+		widened := make([]*inferState, len(finalStates))
+		for i, state := range finalStates {
+			s := state.makeNext()
+			for j, v := range s.usedVars.Vars {
+				if !keys[v] {
+					s.varTpe[j] = symbols.UpperBound(nil, merged[v])
+				}
+			}
+			widened[i] = s
+		}
+		finalStates = widened
+	}
 	var relTypes []ast.BaseTerm
-	for _, state := range levels[len(clause.Premises)] {
+	for _, state := range finalStates {
 		s := state.makeNext()
 		if clause.Transform != nil {
 			for _, tr := range clause.Transform.Statements {
